@@ -682,6 +682,18 @@ func runExchange(t *verifsim.Tape, cfg engine.Config, prop string) *engine.Outco
 			}
 		case "plain-error":
 			scriptErr = fmt.Errorf("plain failure %d", xi)
+			// plain errors come in kinds: some advertise Timeout()/Temporary() (context and net errors do); none of
+			// that makes them anything but an internal fault of a service that did not declare them
+			switch t.Draw("plain-error-kind", 6) {
+			case 1:
+				scriptErr = context.DeadlineExceeded
+			case 2:
+				scriptErr = fmt.Errorf("plain failure %d: %w", xi, os.ErrDeadlineExceeded)
+			case 3:
+				scriptErr = advertisingError{fmt.Sprintf("plain failure %d", xi), t.Draw("adv-timeout", 2) == 0, t.Draw("adv-temporary", 2) == 0}
+			case 4:
+				scriptErr = context.Canceled
+			}
 		}
 		// ---- execute
 		var goPayload any
@@ -1018,6 +1030,16 @@ func placementClass(e string) string {
 	}
 	return "other"
 }
+
+// advertisingError is a plain error with the Timeout/Temporary methods net errors have.
+type advertisingError struct {
+	msg                string
+	timeout, temporary bool
+}
+
+func (e advertisingError) Error() string   { return e.msg }
+func (e advertisingError) Timeout() bool   { return e.timeout }
+func (e advertisingError) Temporary() bool { return e.temporary }
 
 // sigOf is the feature signature of an exchange: what kind of attribute was
 // involved, not which design it came from.
